@@ -281,21 +281,25 @@ func first(a, _ []byte) []byte { return a }
 //@   inline
 
 //@ func (*node4).clear
+//@   assigns SP ST B node.prefixLen node.childrenLen node4.keys pooled
 //@   requires n4 != nil
 //@   ensures[zero] Zero4(n4)
 //@   ensures[frame] frame(n4)
 
 //@ func (*node16).clear
+//@   assigns SP ST B node.prefixLen node.childrenLen node4.keys pooled
 //@   requires n16 != nil
 //@   ensures[zero] Zero16(n16)
 //@   ensures[frame] frame(n16)
 
 //@ func (*node48).clear
+//@   assigns SP ST B node.prefixLen node.childrenLen node4.keys pooled
 //@   requires n48 != nil
 //@   ensures[zero] Zero48(n48)
 //@   ensures[frame] frame(n48)
 
 //@ func (*node256).clear
+//@   assigns SP ST B node.prefixLen node.childrenLen node4.keys pooled
 //@   requires n256 != nil
 //@   ensures[zero] Zero256(n256)
 //@   ensures[frame] frame(n256)
@@ -326,6 +330,7 @@ func first(a, _ []byte) []byte { return a }
 //@   assigns SP ST node.childrenLen
 
 //@ func (*node48).addChild
+//@   assigns SP ST B node.prefixLen node.childrenLen node4.keys pooled
 //@   requires n48 != nil && atype(n48) == typeid(node48) && Inv48(n48) && refIs(ref, n48, 2)
 //@   requires n48.keys[b] == 0 && okRef(child) && child.pointer != n48
 //@   ensures[view] forallp(x, 0, 256, lookP(*ref, x) == ite(x == b, child.pointer, old(lookP48(n48, x))) && lookT(*ref, x) == ite(x == b, child.tag, old(lookT48(n48, x))))
@@ -346,6 +351,7 @@ func first(a, _ []byte) []byte { return a }
 //@     decreases 256 - i
 
 //@ func (*node16).addChild
+//@   assigns SP ST B node.prefixLen node.childrenLen node4.keys pooled
 //@   requires n16 != nil && atype(n16) == typeid(node16) && Inv16(n16) && refIs(ref, n16, 1)
 //@   requires lookP16(n16, b) == nil && okRef(child) && child.pointer != n16
 //@   ensures[view] forallp(x, 0, 256, lookP(*ref, x) == ite(x == b, child.pointer, old(lookP16(n16, x))) && lookT(*ref, x) == ite(x == b, child.tag, old(lookT16(n16, x))))
@@ -363,6 +369,7 @@ func first(a, _ []byte) []byte { return a }
 //@     decreases 16 - i
 
 //@ func (*node4).addChild
+//@   assigns SP ST B node.prefixLen node.childrenLen node4.keys pooled
 //@   requires n4 != nil && atype(n4) == typeid(node4) && Inv4(n4) && refIs(ref, n4, 0)
 //@   requires lookP4(n4, b) == nil && okRef(child) && child.pointer != n4
 //@   ensures[view] forallp(x, 0, 256, lookP(*ref, x) == ite(x == b, child.pointer, old(lookP4(n4, x))) && lookT(*ref, x) == ite(x == b, child.tag, old(lookT4(n4, x))))
@@ -375,6 +382,7 @@ func first(a, _ []byte) []byte { return a }
 //@ spec slotOK(ptr) = ptr.obj != (*ptr).pointer && allocated(ptr.obj) && ptr.obj != nil && inT((*ptr).pointer)
 
 //@ func (*nodeRef).addChild
+//@   assigns SP ST B node.prefixLen node.childrenLen node4.keys pooled
 //@   requires typeOK(*ptr) && InvRef(*ptr) && slotOK(ptr)
 //@   requires lookP(*ptr, b) == nil && okRef(child) && child.pointer != (*ptr).pointer
 //@   ensures[view] forallp(x, 0, 256, lookP(*ptr, x) == ite(x == b, child.pointer, old(lookP(*ptr, x))) && lookT(*ptr, x) == ite(x == b, child.tag, old(lookT(*ptr, x))))
@@ -390,6 +398,7 @@ func first(a, _ []byte) []byte { return a }
 // results must satisfy its invariant and present the same table.
 
 //@ func (*node256).deleteChild
+//@   assigns SP ST B node.prefixLen node.childrenLen node4.keys pooled
 //@   requires n256 != nil && atype(n256) == typeid(node256) && Inv256(n256) && refIs(ref, n256, 3)
 //@   requires n256.children[b].pointer != nil
 //@   ensures[view] forallp(x, 0, 256, lookP(*ref, x) == ite(x == b, nil, old(lookP256(n256, x))) && lookT(*ref, x) == ite(x == b, 0, old(lookT256(n256, x))))
@@ -415,6 +424,7 @@ func first(a, _ []byte) []byte { return a }
 //@     decreases 256 - i
 
 //@ func (*node48).deleteChild
+//@   assigns SP ST B node.prefixLen node.childrenLen node4.keys pooled
 //@   requires n48 != nil && atype(n48) == typeid(node48) && Inv48(n48) && refIs(ref, n48, 2)
 //@   requires n48.keys[b] != 0
 //@   ensures[view] forallp(x, 0, 256, lookP(*ref, x) == ite(x == b, nil, old(lookP48(n48, x))) && lookT(*ref, x) == ite(x == b, 0, old(lookT48(n48, x))))
@@ -439,6 +449,7 @@ func first(a, _ []byte) []byte { return a }
 //@     decreases 256 - i
 
 //@ func (*node16).deleteChild
+//@   assigns SP ST B node.prefixLen node.childrenLen node4.keys pooled
 //@   requires n16 != nil && atype(n16) == typeid(node16) && Inv16(n16) && refIs(ref, n16, 1)
 //@   requires lookP16(n16, b) != nil
 //@   ensures[view] forallp(x, 0, 256, lookP(*ref, x) == ite(x == b, nil, old(lookP16(n16, x))) && lookT(*ref, x) == ite(x == b, 0, old(lookT16(n16, x))))
@@ -457,6 +468,7 @@ func first(a, _ []byte) []byte { return a }
 //@ spec innerChildOK(n, c, ref) = c.pointer != nil && c.pointer != n && c.pointer != ref.obj && allocated(c.pointer) && as(node, c.pointer).prefixLen + n.prefixLen + 1 < 4294967296
 
 //@ func (*node4).deleteChild
+//@   assigns SP ST B node.prefixLen node.childrenLen node4.keys pooled
 //@   requires n4 != nil && atype(n4) == typeid(node4) && Inv4(n4) && refIs(ref, n4, 0)
 //@   requires has4(n4, b) && n4.childrenLen >= 2
 //@   requires forall(i, 0, 4, implies(i < n4.childrenLen, n4.children[i].pointer != n4))
@@ -481,6 +493,7 @@ func first(a, _ []byte) []byte { return a }
 //@ spec isMerge(r) = r.tag == 0 && as(node4, r.pointer).childrenLen == 2
 
 //@ func (*nodeRef).deleteChild
+//@   assigns SP ST B node.prefixLen node.childrenLen node4.keys pooled
 //@   requires typeOK(*ptr) && InvRef(*ptr) && slotOK(ptr)
 //@   requires lookP(*ptr, b) != nil
 //@   requires implies((*ptr).tag == 0, as(node4, (*ptr).pointer).childrenLen >= 2 && forall(i, 0, 4, implies(i < as(node4, (*ptr).pointer).childrenLen, as(node4, (*ptr).pointer).children[i].pointer != (*ptr).pointer)))
@@ -496,7 +509,13 @@ func first(a, _ []byte) []byte { return a }
 //@   ensures[zeroed] implies((*ptr).pointer != n0, ZeroRef(n0, old((*ptr).tag)))
 //@   ensures[replaced] implies(!merge, (*ptr).pointer == n0 || fresh((*ptr).pointer))
 //@   ensures[merge_link] implies(merge, (*ptr).pointer == sP && (*ptr).tag == sT)
-//@   ensures[frame] implies(!merge || sT == 4, frame(n0, ptr.obj, (*ptr).pointer)) && implies(merge && sT != 4, frame(n0, ptr.obj, sP)) && frameSlot(ptr)
+//@   let P = as(node, (*ptr).pointer).prefixLen
+//@   let L = as(node, survP(*ptr, b)).prefixLen
+//@   let sB = lane(as(node4, (*ptr).pointer).keys, survIdx(as(node4, (*ptr).pointer), b))
+//@   ensures[merge_len] implies(merge && sT != 4, as(node, sP).prefixLen == P + 1 + L)
+//@   ensures[merge_path] implies(merge && sT != 4, forall(k, 0, 10, implies(k < P + 1 + L, as(node, sP).prefix[k] == ite(k < P, old(as(node, n0).prefix[k]), ite(k == P, sB, old(as(node, sP).prefix[k - P - 1]))))))
+//@   ensures[merge_child] implies(merge && sT != 4, sameObjExcept(sP, "B", "node.prefixLen") && sameBytes(sP, 0, 1024))
+//@   ensures[frame] implies(!merge, frame(n0, ptr.obj, (*ptr).pointer)) && implies(merge && sT == 4, frame(n0, ptr.obj)) && implies(merge && sT != 4, frame(n0, ptr.obj, sP)) && frameSlot(ptr)
 
 // ---------------------------------------------------------------------------
 // Layer C: trees. WF1 is the typing part of the tree invariant: the root
